@@ -26,6 +26,8 @@ type (
 	lineReader struct {
 		r        *bufio.Reader
 		eofSleep time.Duration
+		// buf holds the beginning of a line whose end has not been written yet
+		buf []byte
 	}
 )
 
@@ -44,33 +46,28 @@ func newLineReader(ioRdr io.Reader, bufSize int) *lineReader {
 // It follows the io.Reader.Read contract and returns io.EOF
 // only when it doesn't have data to be read.
 func (r *lineReader) readLine(ctx context.Context) ([]byte, error) {
-	var buf []byte
-	for ctx.Err() == nil {
-		line, err := r.r.ReadSlice('\n')
-		line = utils.BytesCopy(line)
-		if err == nil {
-			return concatBufs(buf, line), err
-		}
-
-		if err == io.EOF {
-			buf = concatBufs(buf, line)
-			if len(buf) == 0 {
-				return nil, io.EOF
-			}
-			utils.Sleep(ctx, r.eofSleep)
-			continue
-		}
-
-		if err == bufio.ErrBufferFull {
-			return concatBufs(buf, line), nil
-		}
-		return nil, err
+	if ctx.Err() != nil {
+		return nil, io.ErrClosedPipe
 	}
-	return nil, io.ErrClosedPipe
+	line, err := r.r.ReadSlice('\n')
+	line = utils.BytesCopy(line)
+	if err == nil || err == bufio.ErrBufferFull {
+		line = concatBufs(r.buf, line)
+		r.buf = nil
+		return line, nil
+	}
+	if err == io.EOF {
+		// keep the partial line for the next call and report EOF, so that the caller can
+		// hand over the complete lines it already has instead of waiting for the rest
+		r.buf = concatBufs(r.buf, line)
+		return nil, io.EOF
+	}
+	return nil, err
 }
 
 func (r *lineReader) reset(ioRdr io.Reader) {
 	r.r.Reset(ioRdr)
+	r.buf = nil
 }
 
 func concatBufs(b1, b2 []byte) []byte {
